@@ -32,13 +32,18 @@ Inductive probe :=
 | PTable (k : flat_kind) (obs : list coin)                        (* Keeper.Get*FlatFees *)
 | PRatios (seller : bool) (obs : list ratio)                      (* Keeper.GetSeller/BuyerSettlementRatios *)
 | PBips (obs : Z)                                                 (* Keeper.GetCommitmentSettlementBips *)
+| PFlagState (ao us ac : bool)                                    (* the three indicator entries as the keeper reads them *)
 | PQuoteAsk (price : coin) (obs : option quote)                   (* QueryServer.OrderFeeCalc, ask *)
 | PQuoteBid (price : coin) (obs : option quote)                   (* QueryServer.OrderFeeCalc, bid *)
 | PQuoted (q : quoted) (accs : list string) (a : action) (obs : bool)   (* a request whose fees were taken from the observed quote *)
 | PComQuote (fee_denom : string) (navs : list nav) (total : list coin)
             (obs : option (option Z)) (settle : option bool).     (* CommitmentSettlementFeeCalc; MsgMarketCommitmentSettle *)
 
-Inductive case := CMarket (m : market) (created : bool) (probes : list probe).
+(** [CMarketPre]: before the market was created with an explicit id, the governance authority sent
+    the configuration messages [pre] for that (not yet existing) id, each with the observed outcome. *)
+Inductive case :=
+| CMarket (m : market) (created : bool) (probes : list probe)
+| CMarketPre (pre : list (pre_op * bool)) (m : market) (created : bool) (probes : list probe).
 
 Definition flat_table (m : market) (k : flat_kind) : list coin :=
   match k with
@@ -130,7 +135,15 @@ Definition check_probe (m : market) (created : bool) (mk : option stored) (p : p
       tag (same_set ratio_eqb (if seller then m_seller_ratios sm else m_buyer_ratios sm) obs) "corr:ratio_table" ++
       tag (same_set ratio_eqb (if seller then m_seller_ratios pm else m_buyer_ratios pm) obs)
           "prop:ratio_table_differs_from_configuration"
-  | PBips obs => tag (m_bips sm =? obs) "corr:commitment_settlement_bips"
+  | PBips obs => tag (m_bips sm =? obs) "corr:commitment_settlement_bips" ++
+                 tag (m_bips pm =? obs) "prop:commitment_bips_differ_from_configuration"
+  | PFlagState ao us ac =>
+      tag (Bool.eqb (m_accepting_orders sm) ao && Bool.eqb (m_user_settle sm) us &&
+           Bool.eqb (m_accepting_commitments sm) ac) "corr:flag_entries" ++
+      (if created then
+         tag (Bool.eqb (m_accepting_orders pm) ao && Bool.eqb (m_user_settle pm) us &&
+              Bool.eqb (m_accepting_commitments pm) ac) "prop:flags_differ_from_configuration"
+       else [])
   | PQuoteAsk price obs =>
       tag (opt_eqb quote_eqb (quote_ask mk price) obs) "corr:order_fee_calc_ask" ++
       tag (opt_eqb quote_eqb (quote_ask_spec created m price) obs) "prop:order_fee_calc_differs_from_required_fees"
@@ -216,13 +229,30 @@ Fixpoint check_probes (m : market) (created : bool) (mk : option stored) (i : N)
       end
   end.
 
+(** The operations sent before the creation: the model's store under the id after them, or the
+    position of the first operation whose outcome the model does not predict. *)
+Fixpoint check_pre (s : stored) (i : N) (pre : list (pre_op * bool)) : stored + list string :=
+  match pre with
+  | [] => inl s
+  | (o, obs) :: r =>
+      let '(s', ok) := pre_step s o in
+      if Bool.eqb ok obs then check_pre s' (N.succ i) r
+      else inr [("corr:operation_before_creation @pre " ++ N_to_string i)%string]
+  end.
+
+Definition check_from (mk : option stored) (m : market) (created : bool) (probes : list probe) : list string :=
+  if Bool.eqb (is_some mk) created then
+    check_probes m created mk 0%N [] probes
+  else ["corr:create_market"].
+
 Definition check (c : case) : list string :=
   match c with
-  | CMarket m created probes =>
-      let mk := create_market m in
-      if Bool.eqb (is_some mk) created then
-        check_probes m created mk 0%N [] probes
-      else ["corr:create_market"]
+  | CMarket m created probes => check_from (create_market m) m created probes
+  | CMarketPre pre m created probes =>
+      match check_pre blank_stored 0%N pre with
+      | inl old => check_from (store_market old m) m created probes
+      | inr e => e
+      end
   end.
 
 Definition check_all := check_list check.
